@@ -316,7 +316,16 @@ def run_shard(spec, R):
             dtype = [np.float64, np.float32][int(rng.integers(0, 2))]
             shape = tuple(int(rng.integers(1, 7)) for _ in range(dim))
             origin = None if rng.random() < 0.5 else [float(rng.integers(-4, 5)) for _ in range(dim)]
-            img, arr, dims = image(shape, payload=payload, dtype=dtype, origin=origin)
+            dec_dims = None
+            if rng.random() < 0.5:
+                # extents in decimal units on up to 14 voxels: extent / (extent / voxels) is then not always the
+                # voxel count in floating point (0.9 / (0.9 / 7) = 6.999...), the layer count is the array's
+                shape = tuple(int(rng.integers(1, 15)) for _ in range(dim))
+                dec_dims = [float(round(rng.uniform(0.05, 3.0), int(rng.integers(1, 3)))) for _ in range(dim)]
+                R.count("reduce_axis_decimal_extents")
+                if any(int(d / (d / n)) != n for d, n in zip(dec_dims, shape)):
+                    R.count("reduce_axis_extent_over_voxel_size_truncates_below_voxel_count")
+            img, arr, dims = image(shape, dims=dec_dims, payload=payload, dtype=dtype, origin=origin)
             names = {2: {0: "y", 1: "x"}, 3: {0: "z", 1: "x", 2: "y"}}[dim]
             for ax in range(dim):
                 for mode in ("sum", "average"):
